@@ -267,3 +267,69 @@ def large(case, ctx):
         tol = 64 * np.finfo(float).eps * (1 + np.pi * sum(f.shape)) * float(np.sum(np.abs(f)))
         if float(np.max(np.abs(g - f))) > tol:
             raise Violation("C01.large.roundtrip", f"idft2(dft2(f)) != f for shape {f.shape}")
+
+
+# --- long thin arrays: kernels with millions of elements on one axis ---------------------------------------
+
+LONG_IN = [1023, 1024, 1025, 1500, 2047, 2048, 2049, 2600, 3001]
+
+
+@st.composite
+def long_case(draw, tier="quick"):
+    m = draw(st.sampled_from(LONG_IN))
+    M = draw(st.sampled_from([m, m + 1, m + 2, 2 * m - 1, 2 * m, 2 * m + 1, 4 * m + 3, 3 * m + 2]))
+    while M * m > 9_000_000 and M > m:
+        M = max(m, M // 2 + 1)
+    return {"m": m, "M": M, "thin_in": draw(st.integers(1, 3)), "thin_out": draw(st.integers(1, 5)),
+            "axis": draw(st.integers(0, 1)), "alpha_thin": draw(gen.signed_log(1e-2, 0.4)),
+            "seed": draw(st.integers(0, 2**31 - 1)), "out": draw(st.sampled_from(["none", "none", "dirty"])),
+            "layout": draw(gen.layouts())}
+
+
+def long_reference(f, M, alpha_thin, thin_out):
+    """full-period (alpha = 1/M) transform along axis 0 by zero-padded FFT, direct sum along the thin axis 1"""
+    m, n = f.shape
+    c = np.arange(n) - n // 2
+    v = np.arange(thin_out) - thin_out // 2
+    E2 = np.exp(-2j * np.pi * alpha_thin * np.outer(c, v))
+    H = f @ E2                                         # (m, thin_out)
+    g = np.zeros((M, thin_out), dtype=complex)
+    x = np.arange(m) - m // 2
+    g[x % M] = H                                       # circular placement (m <= M: no collisions)
+    G = np.fft.fft(g, axis=0)
+    u = np.arange(M) - M // 2
+    return G[u % M]
+
+
+@hyp("C01", "long", lambda tier: long_case(tier),
+     "inputs of 1023..3001 samples on one axis and 1..3 on the other, transformed over one full period "
+     "(1/alpha = M up to ~4 m, kernels of up to 9e6 elements) vs an FFT-based evaluation of the same sum",
+     examples=(14, 60), budget_s=(150, 700))
+def long(case, ctx):
+    m, M = case["m"], case["M"]
+    rng = np.random.default_rng(case["seed"])
+    f = rng.normal(size=(m, case["thin_in"])) + 1j * rng.normal(size=(m, case["thin_in"]))
+    ref = long_reference(f, M, case["alpha_thin"], case["thin_out"])
+    alpha = [1.0 / M, case["alpha_thin"]]
+    shape = [M, case["thin_out"]]
+    if case["axis"] == 1:
+        f, ref, alpha, shape = f.T, ref.T, alpha[::-1], shape[::-1]
+    f = gen.relayout(np.ascontiguousarray(f), case["layout"])
+    ctx.tag(f"axis:{case['axis']}", "kernel>4M" if M * m > 2**22 else "kernel<=4M", "M_odd" if M % 2 else "M_even",
+            "m_odd" if m % 2 else "m_even", "out:" + case["out"], "M=m" if M == m else "M>m")
+    ctx.nontrivial_if(True)
+    kw = {}
+    if case["out"] == "dirty":
+        kw["out"] = np.full(tuple(shape), 7.0 + 3j)
+    with lentil_call("C01.long", f"dft2(input {f.shape}, alpha {alpha}, shape {shape})"):
+        F = fourier.dft2(f, tuple(alpha), shape=tuple(shape), unitary=False, **kw)
+    tol = 64 * np.finfo(float).eps * (1 + np.pi * m) * float(np.sum(np.abs(f))) / min(f.shape)
+    if F.shape != tuple(shape):
+        raise Violation("C01.long.shape", f"output shape {F.shape}, requested {shape}")
+    err = np.abs(F - ref)
+    if float(err.max()) > tol:
+        i = np.unravel_index(int(np.argmax(err)), err.shape)
+        raise Violation("C01.long.value", f"dft2(input {f.shape}, full period {M}) differs from the defining sum at output "
+                                          f"sample {tuple(int(v) for v in i)} by {float(err.max()):.3e} (tol {tol:.3e})")
+    if "out" in kw and F is not kw["out"]:
+        raise Violation("C01.long.out", "out= buffer is not the returned array")
